@@ -25,7 +25,7 @@ RULE = (
     "cases = call histories over a generated world; evaluations = calls compared; distinct_nontrivial = distinct histories containing >= 1 faulted call "
     "followed by >= 1 successful call on an expression sharing a sub-expression with the faulted one."
 )
-ASSUMPTIONS = ["faults are natural ones only in this tier (no injected exceptions)", "results are compared through a structural canonical form across environments"]
+ASSUMPTIONS = ["injected faults (sys.monitoring LINE failpoints) are raised only inside DagWalker._compute_node_result, where a walker callback can raise in reality", "results are compared through a structural canonical form across environments"]
 BOUNDS = {"quick": dict(n=160, lo=30, hi=60), "thorough": dict(n=6000, lo=40, hi=120)}
 
 
@@ -35,6 +35,11 @@ def plan(tier, seed):
 
 
 def run_shard(spec, res):
+    if spec["tier"] == "thorough" and spec["shard"] == 1:
+        # the repository's own test-suite re-run with the universal monitor installed (DESIGN §4): every internal call is judged
+        from vk.mon import suite as _suite
+
+        _suite.feed(res, PROPERTY, _suite.run_suite(("quiescent",)), "M-quiescent:walks")
     q = Quiescence(res)
     q.install()
     try:
@@ -48,6 +53,11 @@ def run_shard(spec, res):
 
 
 def replay(witness, res):
+    if witness.get("suite"):
+        from vk.mon import suite as _suite
+
+        _suite.replay_suite(res, PROPERTY, ("quiescent",), "M-quiescent:walks", witness)
+        return
     q = Quiescence(res)
     q.install()
     try:
@@ -161,6 +171,10 @@ def gen_history(w, rng, n):
             e = w.boolean(rng.choice([1, 2, 3])) if rng.random() < 0.6 else w.numeric(rng.choice([1, 2]))
         kind = rng.choice(["simplify", "simplify", "subst", "subst", "type", "fv", "fvo", "names", "qrm", "construct"])
         op = dict(kind=kind, e=e, shared=shared)
+        if rng.random() < 0.09:
+            # injected fault (sys.monitoring failpoint inside DagWalker._compute_node_result) at the k-th node computation
+            op["inject"] = rng.randint(0, 10)
+            recent_fault_terms.append(e)
         if kind == "subst":
             subs = [s for s in subterm_recipes(e) if s[0] in ("f",)] or [NZ]
             k = rng.choice(subs + [NZ])
@@ -219,6 +233,20 @@ def execute(op, pb, ctx, env):
         return ("exc", type(ex).__name__)
 
 
+_FP = None
+
+
+def failpoints():
+    global _FP
+    if _FP is None:
+        from unified_planning.model.walkers.dag import DagWalker
+        from vk.mon.failpoints import Failpoints
+
+        _FP = Failpoints([DagWalker._compute_node_result.__code__])
+        _FP.install()
+    return _FP
+
+
 def run_case(key, tier, res, q):
     from unified_planning.exceptions import UPException
     from unified_planning.model import Parameter
@@ -241,7 +269,19 @@ def run_case(key, tier, res, q):
     hist = []
     for i, op in enumerate(ops):
         res.case()
-        a = execute(op, pbA, ctxA, envA)
+        injected = False
+        if "inject" in op:
+            fp = failpoints()
+            fp.arm(op["inject"])
+            try:
+                a = execute(op, pbA, ctxA, envA)
+            finally:
+                fp.disarm()
+            if a == ("exc", "InjectedFault"):
+                injected = True
+                res.count("injected_faults")
+        else:
+            a = execute(op, pbA, ctxA, envA)
         pend_a = list(q.pending)
         q.pending.clear()
         envB = _env.fresh_env()
@@ -267,6 +307,8 @@ def run_case(key, tier, res, q):
         elif faults_seen and op.get("shared"):
             shared_after_fault += 1
             res.count("successful_shared_calls_after_fault")
+        if injected:
+            continue  # the faulted call itself is not compared; every later call is
         if a != bres:
             viol(
                 f"history-dependent:{op['kind']}:{'after-fault' if faults_seen else 'no-fault-yet'}:"
@@ -285,7 +327,7 @@ def run_case(key, tier, res, q):
 def thresholds(m):
     c = m["counters"]
     out = []
-    for k, n in (("faulted_calls", 200), ("successful_shared_calls_after_fault", 200), ("raising_walks_observed", 50), ("walks_observed", 5000)):
+    for k, n in (("injected_faults", 30), ("faulted_calls", 200), ("successful_shared_calls_after_fault", 200), ("raising_walks_observed", 50), ("walks_observed", 5000)):
         if c.get(k, 0) < n:
             out.append(f"{k} observed {c.get(k, 0)} < {n}")
     for f in ("fault:subst-div0:ZeroDivisionError", "fault:simplify-boom:ValueError", "fault:construct-bad-eq:UPTypeError"):
